@@ -156,6 +156,9 @@ def _block_statements(body):
             yield from _block_statements(s.body)
 
 
+RETURNED = "<returned>"
+
+
 def arm_result(fv, arm_body, want_name=None, only=None, pre=()):
     """(result name, value expression, statement) for an arm: either a plain assignment or an
     empty-list initialisation followed by an appending loop (returned as a comprehension).
@@ -178,6 +181,9 @@ def arm_result(fv, arm_body, want_name=None, only=None, pre=()):
                     inits[tg.id] = s
                 else:
                     alias[tg.id] = s
+        elif isinstance(s, ast.Return) and s.value is not None and not isinstance(s.value, (ast.Name, ast.Constant)):
+            # the arm returns its result directly: the value of a pseudo variable
+            alias[RETURNED] = ast.copy_location(ast.Assign(targets=[ast.Name(id=RETURNED, ctx=ast.Store())], value=s.value, lineno=s.lineno), s)
         elif isinstance(s, ast.For):
             for r in list(inits):
                 comp = loop_as_comprehension(s, r)
@@ -212,6 +218,13 @@ def analyse_serial(model, fv, value):
     if cp is None:
         return None
     elt, item, it, ifs = cp
+    # a filtering pass over a lazily mapped sequence: [r for r in (T(x) for x in ITER) if pred(r)]
+    if isinstance(elt, ast.Name) and elt.id == item and isinstance(it, (ast.GeneratorExp, ast.ListComp)) and not any(isinstance(n, ast.NamedExpr) for t in ifs for n in ast.walk(t)):
+        inner = analyse_serial(model, fv, it)
+        if inner is None:
+            return None
+        spec_i, it_i, filters_i = inner
+        return spec_i, it_i, sorted(list(filters_i) + [norm_filter(t, item) for t in ifs])
     filters = []
     call = None
     res_name = None
@@ -559,6 +572,14 @@ def check_split(ctx: Ctx, fi, ifnode):
     check_shared(ctx, pspec.target, len(pspec.fixed), site + ":shared")
     # serial: assignment to the same result variable
     sres = arm_result(fv, serial_body, want_name=pres, pre=pre, only=lambda val: isinstance(val, (ast.GeneratorExp, ast.ListComp)) or (isinstance(val, ast.Call) and dotted(val.func) in ("list", "tuple", "display_progress")))
+    if not sres:
+        # one arm returns its result directly, the other through the variable that the common tail returns
+        only_ = lambda val: isinstance(val, (ast.GeneratorExp, ast.ListComp)) or (isinstance(val, ast.Call) and dotted(val.func) in ("list", "tuple", "display_progress"))
+        tail_names = {rn.stmt.value.id for rn in fv.return_nodes() if isinstance(rn.stmt.value, ast.Name)}
+        if pres == RETURNED and len(tail_names) == 1:
+            sres = arm_result(fv, serial_body, want_name=next(iter(tail_names)), pre=pre, only=only_)
+        elif pres in tail_names:
+            sres = arm_result(fv, serial_body, want_name=RETURNED, pre=pre, only=only_)
     if not sres:
         ctx.violate("PARMAP", site + ":same-result", (fi, ifnode), f"the serial branch does not assign the result variable `{pres}` that the parallel branch assigns")
         return
